@@ -194,10 +194,13 @@ func c12Decimal(c *core.Ctx, rule string) {
 	}
 	n, ok := 0, true
 	core.Instrs(fn, func(i ssa.Instruction) {
-		if core.IsCallTo(i, "strconv.ParseUint") {
+		if core.IsCallTo(i, "strconv.ParseUint", "strconv.ParseInt") {
 			n++
 			base, isC := core.ConstInt(core.AsCall(i).Args[1])
 			ok = ok && isC && base == 10
+		}
+		if core.IsCallTo(i, "strconv.Atoi") { // decimal by definition
+			n++
 		}
 	})
 	c.Decide(n > 0 && ok, rule, "bridgeservice.parseUintQuery#decimal", fn.Pos(), "query numbers are parsed in base 10")
